@@ -135,8 +135,15 @@ var ServerName = certs.DNSName("server.example")
 
 // NewWorld starts a server on a fresh network. clientVerify may be nil.
 func NewWorld(keepLog bool, clientVerify *transport.VerifyConfig, tweak func(*transport.ServerConfig)) *World {
-	w := &World{Net: simnet.New(keepLog), PKI: NewPKI(), nextAddr: 100}
-	w.ServerID = w.PKI.IssueServer(ServerName)
+	pki := NewPKI()
+	return NewWorldWith(pki, pki.IssueServer(ServerName), keepLog, clientVerify, tweak)
+}
+
+// NewWorldWith is NewWorld for an existing PKI and server identity (a twin of
+// a server created elsewhere, e.g. in another bubble with another clock).
+func NewWorldWith(pki *PKI, sid *Identity, keepLog bool, clientVerify *transport.VerifyConfig, tweak func(*transport.ServerConfig)) *World {
+	w := &World{Net: simnet.New(keepLog), PKI: pki, nextAddr: 100}
+	w.ServerID = sid
 	w.SrvAddr = simnet.Addr(1, 7777)
 	w.SrvEP = w.Net.Listen(w.SrvAddr)
 	cfg := ServerConfig(w.ServerID, clientVerify, 5*time.Second)
